@@ -6,10 +6,10 @@ import vlib
 HARNESS = ["multiboot/c10_mb_test.go"]
 PKG = ("kernel", "multiboot")
 DESIGN_BUGS_QUICK = ["NoAlign", "LastWins", "TypeGt5"]
-DESIGN_BUGS_FULL = ["NoAlign", "LastWins", "Stride24", "SizeWithHeader", "TypeGt5", "CmdLenPlusOne", "ReportEmpty"]
+DESIGN_BUGS_FULL = ["NoAlign", "LastWins", "Stride24", "SizeWithHeader", "TypeGt5", "CmdLenPlusOne", "ReportEmpty", "EagerStrtab"]
 ASSUME = [
     "well-formed blocks only: declared tag sizes are exact, memory-map tag size = 16 + entries*entry_size, command line NUL-terminated inside its tag, "
-    "ELF tag with >= 1 section of 64 bytes (ELF64) whose string-table index is valid and whose name offsets lie inside a NUL-terminated string table",
+    "ELF tag with 64-byte (ELF64) section headers: either no section at all (string-table index 0) or >= 1 section with a valid string-table index and name offsets inside a NUL-terminated string table",
     "tag layouts follow GRUB's multiboot2.h (framebuffer: 16-bit reserved field before the colour info; ELF tag: three 32-bit words before the headers)",
     "defined memory-region types are 1..4 (the package's MemoryEntryType constants); every other 32-bit value must be reported as reserved (2)",
     "command-line entries with two or more '=' are neither key=value nor bare flag: blocks containing one are still decoded (fault check) but their "
@@ -83,7 +83,7 @@ def run(ctx):
     q = ctx.quick
     ctx.assumptions += ASSUME
     ctx.rule = ("case = one abstract information block (tag sequence with payloads) + padding byte; leg G decodes every block TLC enumerated in the "
-                "small scope (all tag orders/duplicates over a 15-tag menu, entry sizes 24/32/40 x all boundary types, every command line over "
+                "small scope (all tag orders/duplicates over a 16-tag menu incl. the empty-payload corner cases (ELF tag without sections, map without entries, empty command line, minimal framebuffer tag) in every position, entry sizes 24/32/40 x all boundary types, every command line over "
                 "{a,=,space,tab}, section tables, framebuffer types), each with zero and 0xEE padding; leg T decodes seeded random blocks (<= 12 tags, <= 64 "
                 "entries, arbitrary 32-bit types, long command lines, <= 30 sections); a case is distinct by (block, padding) and non-trivial when it "
                 "holds at least one decoded tag kind")
